@@ -105,3 +105,28 @@ def find_sites(model: Model) -> List[RxSite]:
             mn = q.rsplit(".", 1)[0]
             sites.append(RxSite(mn, "", model.modules[mn].globals_[q.split(".")[-1]][0], "match", pat, flags, q.split(".")[-1]))
     return sites
+
+
+def match_vars(func_node: ast.AST) -> Dict[str, str]:
+    """local -> pattern text, for locals bound from <pattern>.match/fullmatch/search(...) or re.match(<pattern>, ...)."""
+    out: Dict[str, str] = {}
+    for n in ast.walk(func_node):
+        if isinstance(n, ast.Assign) and isinstance(n.value, ast.Call) and isinstance(n.value.func, ast.Attribute) and n.value.func.attr in ("match", "fullmatch", "search"):
+            c = n.value
+            pat = ast.unparse(c.args[0]) if ast.unparse(c.func.value) == "re" and c.args else ast.unparse(c.func.value)
+            for t in n.targets:
+                if isinstance(t, ast.Name):
+                    out[t.id] = pat
+    return out
+
+
+def group_accesses(func_node: ast.AST):
+    """(node, match local, group name) for every m.group("name") and m["name"] on a local bound from a match call."""
+    mv = match_vars(func_node)
+    for c in ast.walk(func_node):
+        if isinstance(c, ast.Call) and isinstance(c.func, ast.Attribute) and c.func.attr == "group" and isinstance(c.func.value, ast.Name) and c.args \
+                and isinstance(c.args[0], ast.Constant) and isinstance(c.args[0].value, str):
+            yield c, c.func.value.id, c.args[0].value
+        elif isinstance(c, ast.Subscript) and isinstance(c.value, ast.Name) and c.value.id in mv and isinstance(c.slice, ast.Constant) and isinstance(c.slice.value, str) \
+                and isinstance(c.ctx, ast.Load):
+            yield c, c.value.id, c.slice.value
